@@ -28,6 +28,8 @@ EXPLANATION = (
     "(is_tex_file, is_pdf, is_writable, _is_csv, _select_template_or_default) never subscript the value's context: they are "
     "total and effect-free on every context a dictionary subclass can be.  Does not decide which values are selected.")
 RULES = {
+    "C10-j": "OPTION HONOURED: every option a selective element stores in its constructor from an argument is read by one of its "
+             "data-path methods (an accepted but ignored select_bins / get_example_bin silently selects other values)",
     "C10-i": "SELECTION KEYS (siblings): is_pdf / is_tex_file read context.output.filetype and nothing else",
     "C10-a": "identity: a passed value is the loop variable itself, never rebound, never a rebuilt tuple",
     "C10-b": "PURE: no mutation through the value or its aliases and no file-system/subprocess effect on a PASS path",
@@ -664,7 +666,57 @@ def check_converter_selection_keys(ctx):
     ctx.instances_floor("C10-i", n, 2, "converter selection predicates")
 
 
+def check_options_honoured(ctx):
+    """C10-j.  Which values a selective element selects is configured through its constructor.  An argument that is validated
+    and stored, and then read by no method that handles values, leaves the element selecting by its defaults: with a custom
+    get_example_bin MapBins would judge histograms by their first bin and transform those the user's function says are not
+    selected."""
+    from ..loader import methods as _methods
+    n = 0
+    bad = 0
+    for modname, qual in INSTANCES:
+        cname = qual.split(".")[0]
+        cls = ctx.tree.cls(modname, cname)
+        ms = _methods(cls)
+        init = ms.get("__init__")
+        if init is None:
+            continue
+        params = {p for p in A.func_params(init) if p != "self"}
+        stored = {}
+        for a in A.walk_local(init):
+            if isinstance(a, ast.Assign):
+                for t in a.targets:
+                    if A.is_self_attr(t) and {x.id for x in ast.walk(a.value) if isinstance(x, ast.Name)} & params:
+                        stored.setdefault(t.attr, a)
+        reads = set()
+        for name, m in ms.items():
+            if name in ("__init__", "__eq__", "__ne__", "__repr__", "__str__", "__hash__"):
+                continue
+            for x in ast.walk(m):       # nested helpers of run() included
+                if A.is_self_attr(x) and isinstance(x.ctx, ast.Load):
+                    reads.add(x.attr)
+        # a field read later in the constructor itself to build another stored field counts through that field
+        for attr, a in sorted(stored.items()):
+            n += 1
+            used = attr in reads
+            if not used:
+                for b in A.walk_local(init):
+                    if isinstance(b, ast.Assign) and b is not a and any(A.is_self_attr(x, attr) and isinstance(x.ctx, ast.Load) for x in ast.walk(b.value)) \
+                            and any(A.is_self_attr(t) and t.attr in reads for t in b.targets):
+                        used = True
+            if not used:
+                bad += 1
+                ctx.violation("C10-j", a, "%s.__init__ stores its argument as self.%s, which no method of %s that handles values reads: the "
+                              "option is accepted and ignored, so the element selects (and transforms) by its default where the caller "
+                              "configured something else -- values the configured selection excludes are no longer passed on as the same "
+                              "object" % (cname, attr, cname), construct="option-ignored:%s.%s" % (cname, attr))
+    ctx.instances_floor("C10-j", n, 20, "options stored by the constructors of the selective elements")
+    if not bad:
+        ctx.ok("C10-j", ctx.tree.func(*INSTANCES[0]), "%d stored options are all read on the data path" % n)
+
+
 def check(ctx):
+    check_options_honoured(ctx)
     check_converter_selection_keys(ctx)
     check_total_selection(ctx)
     check_example_bin(ctx)
@@ -677,6 +729,7 @@ def check(ctx):
 
 
 VARIANTS = [
+    M("mapbins-ignores-example-bin", "lena/structures/split_into_bins.py", "        get_example_bin = self._get_example_bin\n\n        for val in flow:", "        for val in flow:", ["C10-j"]),
     M("is-tex-by-filename", "lena/output/latex_to_pdf.py", "            if filetype == \"tex\":", "            if filetype == \"tex\" or lena.context.get_recursively(context, \"output.fileext\", None) == \"tex\":", ["C10-i"]),
     M("is-csv-by-subscript", "lena/output/render_latex.py", "    return _get_recursively(\n        context, \"output.filetype\", None\n    ) == \"csv\"", "    try:\n        return context[\"output\"][\"filetype\"] == \"csv\"\n    except KeyError:\n        return False", ["C10-h"]),
     M("latex-last-value-decides-wait", "lena/output/latex_to_pdf.py", "        # this data mustn't be reused\n        del val\n",
